@@ -340,3 +340,101 @@ func cacheKeysScenario() *scenario {
 	}
 	return sc
 }
+
+// The locations scenario: a location hierarchy in which names are ambiguous - ward "Centre" exists in four districts and
+// district "Gasabo" in two states - and eight scripts whose contacts live in the different districts.  Every session
+// resolves its state, district and ward WITH the parent (set_contact_field on state/district/ward fields, has_district
+// and has_ward router tests and expressions), first at the start and again on resume, i.e. after the other sessions of
+// the round have done their lookups on the shared hierarchy.  A lookup is read only: what one session resolves must not
+// depend on what another session looked up before it.
+func locationsScenario() *scenario {
+	lu := func(n int) string { return fmt.Sprintf("c0900000-0000-4000-c000-%012d", n) }
+	flowMain := lu(10)
+	channel := lu(5)
+	loc := func(name string, aliases []string, children ...obj) obj {
+		o := obj{"name": name, "children": children}
+		if aliases != nil {
+			o["aliases"] = aliases
+		}
+		return o
+	}
+	hierarchy := loc("Rwanda", []string{"Ruanda"},
+		loc("Kigali City", []string{"Kigali", "Kigari"},
+			loc("Gasabo", nil, loc("Centre", []string{"Downtown"}), loc("Gisozi", nil), loc("Ndera", nil)),
+			loc("Nyarugenge", nil, loc("Centre", []string{"Downtown"}), loc("Gitega", nil))),
+		loc("Eastern Province", []string{"East"},
+			loc("Rwamagana", nil, loc("Kigabiro", nil), loc("Centre", nil)),
+			loc("Gasabo", nil, loc("Remera", nil), loc("Centre", []string{"Downtown"}))))
+	where := "@(has_ward(trigger.params.ward, trigger.params.district, trigger.params.state).match) / " +
+		"@(has_district(trigger.params.district, trigger.params.state).match) / @(has_state(trigger.params.state).match)"
+	mainFlow := obj{
+		"uuid": flowMain, "name": "C09 Locations", "spec_version": "13.6.0", "language": "eng", "type": "messaging",
+		"revision": 1, "expire_after_minutes": 60, "localization": obj{},
+		"nodes": []obj{
+			{
+				"uuid": lu(100),
+				"actions": []obj{
+					{"uuid": lu(101), "type": "set_contact_field", "field": obj{"key": "state", "name": "State"}, "value": "@trigger.params.state"},
+					{"uuid": lu(102), "type": "set_contact_field", "field": obj{"key": "district", "name": "District"}, "value": "@trigger.params.district"},
+					{"uuid": lu(103), "type": "set_contact_field", "field": obj{"key": "ward", "name": "Ward"}, "value": "@trigger.params.ward"},
+					{"uuid": lu(104), "type": "send_msg", "text": "You are in @fields.ward / @fields.district / @fields.state. " + where},
+				},
+				"router": obj{
+					"type": "switch", "operand": "@input.text", "result_name": "Where",
+					"wait":                  obj{"type": "msg"},
+					"default_category_uuid": lu(123),
+					"categories": []obj{{"uuid": lu(121), "name": "Ward", "exit_uuid": lu(141)}, {"uuid": lu(122), "name": "District", "exit_uuid": lu(142)},
+						{"uuid": lu(123), "name": "Other", "exit_uuid": lu(143)}},
+					"cases": []obj{
+						{"uuid": lu(130), "type": "has_ward", "arguments": []string{"@trigger.params.district", "@trigger.params.state"}, "category_uuid": lu(121)},
+						{"uuid": lu(131), "type": "has_district", "arguments": []string{"@trigger.params.state"}, "category_uuid": lu(122)},
+					},
+				},
+				"exits": []obj{{"uuid": lu(141), "destination_uuid": lu(150)}, {"uuid": lu(142), "destination_uuid": lu(150)}, {"uuid": lu(143), "destination_uuid": lu(150)}},
+			},
+			{
+				"uuid": lu(150),
+				"actions": []obj{
+					{"uuid": lu(151), "type": "set_contact_field", "field": obj{"key": "ward", "name": "Ward"}, "value": "@input.text"},
+					{"uuid": lu(152), "type": "send_msg", "text": "Resolved @results.where.category: @results.where.value, now @fields.ward. " + where},
+				},
+				"exits": []obj{{"uuid": lu(161)}},
+			},
+		},
+	}
+	assetsJSON := obj{
+		"flows": []obj{mainFlow},
+		"fields": []obj{
+			{"uuid": lu(20), "key": "state", "name": "State", "type": "state"},
+			{"uuid": lu(21), "key": "district", "name": "District", "type": "district"},
+			{"uuid": lu(22), "key": "ward", "name": "Ward", "type": "ward"},
+		},
+		"channels":  []obj{{"uuid": channel, "name": "Android", "address": "+17036975131", "schemes": []string{"tel"}, "roles": []string{"send", "receive"}, "country": "US"}},
+		"locations": []obj{hierarchy},
+	}
+	raw, err := json.MarshalIndent(assetsJSON, "", " ")
+	if err != nil {
+		panic(err)
+	}
+	env := obj{"allowed_languages": []string{"eng"}, "date_format": "YYYY-MM-DD", "time_format": "hh:mm", "timezone": "Africa/Kigali"}
+	places := []struct{ state, district, ward, answer string }{
+		{"Kigali City", "Gasabo", "Centre", "centre"}, {"Kigali City", "Nyarugenge", "Centre", "downtown"},
+		{"Eastern Province", "Gasabo", "Centre", "Downtown"}, {"Eastern Province", "Rwamagana", "Centre", "centre"},
+		{"Kigali", "Gasabo", "Gisozi", "Centre"}, {"East", "Gasabo", "Remera", "centre"},
+		{"Kigali City", "Nyarugenge", "Gitega", "Centre"}, {"Eastern Province", "Rwamagana", "centre", "Kigabiro"},
+	}
+	sc := &scenario{Name: "locations", Assets: raw}
+	for i, pl := range places {
+		c := obj{"uuid": fmt.Sprintf("c0910c%02d-0000-4000-a000-%012d", i, 9000+i), "id": 9000 + i, "name": fmt.Sprintf("Resident %d", i), "language": "eng", "status": "active",
+			"created_on": "2000-01-01T00:00:00.000000000-00:00", "urns": []string{fmt.Sprintf("tel:+1206555%04d", 300+i)}}
+		tb, _ := json.Marshal(obj{"type": "manual", "flow": obj{"uuid": flowMain, "name": "C09 Locations"}, "contact": c, "environment": env,
+			"triggered_on": "2000-01-01T00:00:00.000000000-00:00", "params": obj{"state": pl.state, "district": pl.district, "ward": pl.ward}})
+		rb, _ := json.Marshal(obj{"type": "msg", "resumed_on": "2000-01-01T00:00:00.000000000-00:00",
+			"msg": obj{"uuid": lu(900 + i), "text": pl.answer, "urn": fmt.Sprintf("tel:+1206555%04d", 300+i), "channel": obj{"uuid": channel, "name": "Android"}}})
+		sc.Scripts = append(sc.Scripts, script{Name: fmt.Sprintf("resident_%d_%s", i, pl.district), Trigger: tb, Resumes: []json.RawMessage{rb}})
+	}
+	if err := sc.derive(); err != nil {
+		panic(err)
+	}
+	return sc
+}
